@@ -628,3 +628,81 @@ Definition steps_tie (e : env) (l : lats) : bool :=
   let t4 := adv D t3 (l_domain l) in
   step_tie D 0 (graffiti_lat e l) || step_tie D t1 (auction_lat e l) || step_tie D t2 (l_proposal l)
   || step_tie D t3 (l_domain l) || step_tie D t4 (l_sign l).
+
+(* ------------------------------------------------------------------------------------------- *)
+(* obtainGraffiti, the bytes.  What the graffiti provider hands back is a byte string; when it contains
+   the text "{{CLIENT}}" and the proposal provider also is a consensusclient.NodeClientProvider, the
+   node is asked for its client string: on failure the graffiti is left as it is ("not updating
+   graffiti"), on success every occurrence of the placeholder is replaced by the WHOLE string the node
+   gave, whatever it looks like (bytes.ReplaceAll: left to right, occurrences do not overlap, what was
+   put in is not scanned again).  Then [copy(res[:], graffiti)]: the first 32 bytes, zeros after a
+   shorter text.  None of this can fail: the only error of obtainGraffiti is the graffiti provider's.
+   The 32 bytes are identified with the number they spell (big endian), which is the [N] that
+   [GOk] / [EProposal] carry ([GOk g] for a small [g]: 24 zero bytes and the 8 bytes of [g]). *)
+
+Inductive ncout :=
+| NCNone                     (* the proposal provider is no NodeClientProvider *)
+| NCErr                      (* NodeClient fails *)
+| NCOk (client : list N).    (* the client string, bytes *)
+
+Inductive gsrc :=
+| GSNone                     (* no graffiti provider configured *)
+| GSErr                      (* the graffiti provider fails *)
+| GSBytes (text : list N) (nc : ncout).
+
+(* "{{CLIENT}}" *)
+Definition placeholder : list N := [123; 123; 67; 76; 73; 69; 78; 84; 125; 125].
+
+Fixpoint prefix_b (p s : list N) : bool :=
+  match p, s with
+  | [], _ => true
+  | _ :: _, [] => false
+  | a :: p', b :: s' => (a =? b) && prefix_b p' s'
+  end.
+
+(* bytes.Contains *)
+Fixpoint contains_b (p s : list N) : bool :=
+  prefix_b p s || match s with [] => false | _ :: s' => contains_b p s' end.
+
+(* bytes.ReplaceAll for a pattern that is not empty; [skip]: bytes of an occurrence still to be passed over *)
+Fixpoint replace_from (p new : list N) (skip : nat) (s : list N) : list N :=
+  match s with
+  | [] => []
+  | x :: s' =>
+      match skip with
+      | S k => replace_from p new k s'
+      | O => if prefix_b p s then new ++ replace_from p new (length p - 1) s'
+             else x :: replace_from p new 0 s'
+      end
+  end.
+Definition replace_all (p new s : list N) : list N := replace_from p new 0 s.
+
+(* copy(res[:], graffiti) into a zeroed [32]byte *)
+Definition pad32 (bs : list N) : list N := firstn 32 (bs ++ repeat 0 32).
+Definition be_value (bs : list N) : N := fold_left (fun acc b => acc * 256 + b) bs 0.
+Definition graffiti_n (bs : list N) : N := be_value (pad32 bs).
+
+(* the text after the placeholder has been dealt with *)
+Definition client_text (text : list N) (nc : ncout) : list N :=
+  if contains_b placeholder text then
+    match nc with
+    | NCNone => text
+    | NCErr => text                                   (* "Failed to obtain node client; not updating graffiti" *)
+    | NCOk client => replace_all placeholder client text
+    end
+  else text.
+
+(* is the node asked for its client string *)
+Definition node_client_asked (s : gsrc) : bool :=
+  match s with
+  | GSBytes text (NCErr | NCOk _) => contains_b placeholder text
+  | _ => false
+  end.
+
+(* the outcome of the graffiti lookup as [propose] knows it *)
+Definition resolve_graffiti (s : gsrc) : gout :=
+  match s with
+  | GSNone => GNone
+  | GSErr => GErr
+  | GSBytes text nc => GOk (graffiti_n (client_text text nc))
+  end.
